@@ -361,7 +361,7 @@ func (dq *Deque[T]) addAfter(value T, after *element[T]) error {
 	if after.isRoot() {
 		dq.nfront.Signal()
 	}
-	if after.prev.isRoot() {
+	if it.next.isRoot() {
 		dq.nback.Signal()
 	}
 	dq.updates.Signal()
